@@ -4,33 +4,38 @@
 -/
 import Relic.Proofs.XapSign
 import Relic.Props.C08_Xap
+import Relic.Props.C01_Xap
 namespace Relic.Props.C03
 open Relic Relic.Xap
 
-/-- **xap_payload_preserved.** The file one signing round writes is `base z loc ++ header ++ s ++ trailer`, where
-    `base z loc` is a prefix of the input at least as long as the directory offset: every byte in front of the patch
-    position is the input's byte, nothing is inserted or moved.  For an input that already ends in a consistent frame
-    (`z = b ++ header ++ s₀ ++ trailer`, directory inside `b`) the prefix is exactly `b`: the old frame is gone, the ZIP is
-    intact.  For an input whose directory blob does not end in the trailer magic the prefix is the whole input. -/
+/-- **xap_payload_preserved** (full strength, every input; FX1 repaired).  The file one signing round writes is
+    `base z loc ++ header ++ s ++ trailer`, where `base z loc` is a prefix of the input reaching at least to the directory
+    offset, and the input is *either* exactly `base z loc` (nothing removed) *or* `base z loc` followed by one complete
+    header ++ blob ++ trailer whose size fields agree with the blob.  In the second case relic's own `Verify` locates
+    precisely those removed bytes as the signature of the input (file below 2^63 bytes): what signing removes is a
+    signature frame by the verifier's own standard, and nothing else – there is no look-alike exception any more. -/
 theorem xap_payload_preserved (z : Bytes) (loc : Nat) (s : Bytes) (hloc : loc ≤ z.length) :
     signRound z loc s = .ok (base z loc ++ sigBlock s) ∧
     base z loc = z.take (base z loc).length ∧ loc ≤ (base z loc).length ∧ (base z loc).length ≤ z.length ∧
-    (∀ b s₀ : Bytes, z = b ++ sigBlock s₀ → loc ≤ b.length → s₀.length + 8 < 4294967296 → base z loc = b) ∧
-    (trMagic (z.drop loc) ≠ trailerMagic → base z loc = z) := by
-  refine ⟨signRound_eq z loc s hloc, base_eq_take z loc hloc, ?_, base_length_le z loc hloc, ?_, ?_⟩
+    (base z loc = z ∨
+      ∃ u1 u2 u3 : Nat, ∃ blob : Bytes, z = framed (base z loc) u1 u2 u3 blob ∧ blob.length + 8 < 4294967296 ∧
+        (z.length < 9223372036854775808 →
+          locate z (z.length : Int) = .ok ⟨blob, (base z loc).length, u1 % 65536, u2 % 65536, u3 % 65536⟩)) := by
+  refine ⟨signRound_eq z loc s hloc, base_eq_take z loc hloc, ?_, base_length_le z loc hloc, ?_⟩
   · rw [base_length z loc hloc]; omega
-  · intro b s₀ hz hb hs₀
-    subst hz
-    have e : b ++ sigBlock s₀ = b.take loc ++ (b.drop loc ++ sigBlock s₀) := by
-      rw [← List.append_assoc, List.take_append_drop]
-    have hl : (b.take loc).length = loc := by simp; omega
-    show (b ++ sigBlock s₀).take loc ++ removeSignature ((b ++ sigBlock s₀).drop loc) = b
-    rw [e, take_append_len _ _ loc hl, drop_append_len _ _ loc hl, append_sigBlock, removeSignature_framed _ _ _ _ _ hs₀,
-      List.take_append_drop]
-  · intro hm
-    rcases removeSignature_cases (z.drop loc) with ⟨h, _⟩ | ⟨_, _, h, _⟩
-    · unfold base; rw [h]; exact List.take_append_drop loc z
-    · exact absurd h hm
+  · rcases C01.xap_base_cases z loc hloc with ⟨h, _⟩ | ⟨u1, u2, u3, blob, e, hb, _⟩
+    · exact Or.inl h
+    · refine Or.inr ⟨u1, u2, u3, blob, e, hb, fun hl => ?_⟩
+      have := locate_framed (base z loc) blob u1 u2 u3 hb (by rw [← e]; exact hl)
+      rw [← e] at this
+      exact this
+
+/-- the two familiar special cases: relic's own output loses exactly the frame `Sign` added; an input without a frame at its
+    end is kept whole -/
+theorem xap_payload_cases (z : Bytes) (loc : Nat) :
+    (∀ b s₀ : Bytes, z = b ++ sigBlock s₀ → loc ≤ b.length → s₀.length + 8 < 4294967296 → base z loc = b) ∧
+    (frameSize z = 0 → base z loc = z) :=
+  ⟨fun b s₀ hz hb hs₀ => by subst hz; exact base_of_signed b s₀ loc hb hs₀, fun h => base_of_unsigned z loc h⟩
 
 /-- **xap_patch_constructible.** The patch `Sign` hands to `binpatch` is one range that lies inside the file and ends at its
     end: constructible, so C12's exactness theorems (`add_spec`, `apply_exact`, `inplace_eq_rewrite`) apply to it. -/
@@ -57,19 +62,13 @@ theorem xap_refusal_is_clean (z s g : Bytes) (h : signFile z s = .ok g) :
   obtain ⟨d, h2, h⟩ := bind_eq_ok h
   exact ⟨ms, d, h1, h2, h⟩
 
-/-- through the transform: when `FindDirectory` answers `loc` (inside the file) the signer module writes what
-    `signRound` writes -/
-theorem xap_signFile_eq (z s : Bytes) (loc : Nat) (hfd : Zip.findDirectory ⟨z, false, 0⟩ = .ok loc) (hloc : loc ≤ z.length) :
-    signFile z s = .ok (base z loc ++ sigBlock s) := by
-  have ht : transform z = .ok (zipToTar z loc) := by
-    unfold transform; rw [hfd, bind_ok, if_neg (by omega)]
-  have := signRound_eq z loc s hloc
-  unfold signRound at this
-  unfold signFile
-  rw [ht, bind_ok]
-  exact this
+/-- through the (repaired) transform: when `FindDirectory`, run on the part of the file in front of a trailing frame, answers
+    `loc` (inside the file), the signer module writes what `signRound` writes -/
+theorem xap_signFile_eq (z s : Bytes) (loc : Nat)
+    (hfd : Zip.findDirectory ⟨z.take (z.length - frameSize z), false, 0⟩ = .ok loc) (hloc : loc ≤ z.length) :
+    signFile z s = .ok (base z loc ++ sigBlock s) := signFile_eq z s loc hfd hloc
 
-/-! ### the exception: a trailer look-alike is cut off although it is no signature -/
+/-! ### before the repair of FX1: a trailer look-alike was cut off although it is no signature -/
 
 /-- `C01.oneMemberZip` with the EOCD's "size of the central directory" field set to 0x53706158 ("XapS"): the last ten bytes
     of the file now read as an `xapTrailer` with `TrailerSize = 0` -/
@@ -80,29 +79,35 @@ def lookalikeZip : Bytes :=
   [0x50, 0x4b, 5, 6, 0, 0, 0, 0, 1, 0, 1, 0, 0x58, 0x61, 0x70, 0x53, 33, 0, 0, 0, 0, 0]
 
 set_option maxRecDepth 100000 in
-/-- **xap_lookalike_not_preserved** (finding FX1).  `removeSignature` trusts the ten trailer bytes alone.  The archive above
-    is accepted by the transform (`FindDirectory` does not read the size field), is *not* signed by the standard of relic's
-    own `Verify` (no header in front: "invalid xap file"), yet signing it cuts the last ten bytes of its end-of-central-
-    directory record: the output is not the input plus a signature, and no ZIP reader will find a directory in it.
-    "Refuse or preserve" fails for it. -/
+/-- **xap_lookalike_not_preserved** (finding FX1, a statement about the code *before* its repair: `removeSignatureOrig`,
+    `signFileOrig`).  The original `removeSignature` trusted the ten trailer bytes alone.  The archive above is accepted by the
+    transform (`FindDirectory` does not read the size field), is *not* signed by the standard of relic's own `Verify` (no header
+    in front: "invalid xap file"), yet signing it cut the last ten bytes of its end-of-central-directory record: the output
+    was not the input plus a signature, and no ZIP reader would find a directory in it. -/
 theorem xap_lookalike_not_preserved (s : Bytes) :
     locate lookalikeZip lookalikeZip.length = .err "invalid" ∧
-    signFile lookalikeZip s = .ok (lookalikeZip.take 92 ++ sigBlock s) ∧ lookalikeZip.length = 102 := by
+    signFileOrig lookalikeZip s = .ok (lookalikeZip.take 92 ++ sigBlock s) ∧ lookalikeZip.length = 102 := by
   refine ⟨by decide, ?_, by decide⟩
-  rw [xap_signFile_eq lookalikeZip s 33 (by decide) (by decide)]
-  have : base lookalikeZip 33 = lookalikeZip.take 92 := by decide
+  rw [signFileOrig_eq lookalikeZip s 33 (by decide) (by decide)]
+  have : baseOrig lookalikeZip 33 = lookalikeZip.take 92 := by decide
   rw [this]
+
+set_option maxRecDepth 100000 in
+/-- **xap_lookalike_preserved.** The repaired code on the same archive: no header with a matching size precedes the
+    look-alike, so nothing is cut off – the output is the input followed by the signature frame. -/
+theorem xap_lookalike_preserved (s : Bytes) : signFile lookalikeZip s = .ok (lookalikeZip ++ sigBlock s) := by
+  rw [signFile_eq lookalikeZip s 33 (by decide) (by decide), base_of_unsigned lookalikeZip 33 (by decide)]
 
 /-! ### non-vacuity -/
 
 set_option maxRecDepth 100000 in
 example : (33 : Nat) ≤ C08.oneMemberZip.length ∧ Zip.findDirectory ⟨C08.oneMemberZip, false, 0⟩ = .ok 33 ∧
-    trMagic (C08.oneMemberZip.drop 33) ≠ trailerMagic ∧ (transform (C08.oneMemberZip.take 60)).isOk = false := by decide
+    frameSize C08.oneMemberZip = 0 ∧ (transform (C08.oneMemberZip.take 60)).isOk = false ∧
+    -- an input that already ends in a frame: exactly the frame is what `Verify` locates
+    frameSize (C08.oneMemberZip ++ sigBlock [7, 7]) = 20 := by decide
 
 set_option maxRecDepth 100000 in
 example : signFile C08.oneMemberZip [5, 6] = .ok (C08.oneMemberZip ++ sigBlock [5, 6]) := by
-  rw [xap_signFile_eq C08.oneMemberZip [5, 6] 33 (by decide) (by decide)]
-  have : base C08.oneMemberZip 33 = C08.oneMemberZip := by decide
-  rw [this]
+  rw [xap_signFile_eq C08.oneMemberZip [5, 6] 33 (by decide) (by decide), base_of_unsigned C08.oneMemberZip 33 (by decide)]
 
 end Relic.Props.C03
